@@ -328,11 +328,14 @@ def r11_4(ctx):
     from rules.C16 import point2d, PV
     out = Outcome("R11.4", "an in-place transformation that rejects its arguments leaves every coordinate unchanged "
                            "(argument kinds: numeric string, bytes, None, list, pair where a number is required, wrong "
-                           "arity)", floor=6)
+                           "arity, one-shot iterables)", floor=6)
     NAMES = ("move", "scale", "rotate")
     BAD = {"scale": [(2, "3"), ("2", 3), (2, None), (None, 2), (2, b"3"), (2, [1]), ((1, 2), 3), (Fr(1, 2), "x")],
            "rotate": [("30",), (None,), ("30", True), ([1],), (b"1",)],
-           "move": [("12",), (1, "2"), (("1", 2),), (None,), (1, 2, 3), ((1, None),)]}
+           "move": [("12",), (1, "2"), (("1", 2),), (None,), (1, 2, 3), ((1, None),),
+                    # one-shot iterables: consumed by the first reader (accepted as a whole, or rejected as a whole)
+                    lambda: (iter([3, 5]),), lambda: (map(int, ("3", "5")),), lambda: ((v for v in (3, 5)),),
+                    lambda: (iter([3]),), lambda: (iter([3, "x"]),)]}
 
     def world():
         pts = [[PtObj(f"p{c}{i}", _x=Fr(2 * i + 1 + 10 * c), _y=Fr(3 * i - 2 + 7 * c), is_point=True) for i in range(3)]
@@ -372,6 +375,10 @@ def r11_4(ctx):
             fn = ctx.fn(f"{qbase}.{name}")
             worst, und = None, None
             for args in BAD[name]:
+                label = None
+                if callable(args):
+                    label = ("one-shot iterable #%d" % BAD[name].index(args))
+                    args = args()
                 shape, curves, pts = world()
                 target = shape if level == "shape" else curves[0]
                 before = [(p._x, p._y) for p in pts]
@@ -379,7 +386,7 @@ def r11_4(ctx):
                 try:
                     Runner(ctx, set(), hook, ext=ext).call_fn(fn, [target] + list(args))
                 except Undecided as ex:
-                    und = und or f"{name}{args!r}: {ex}"
+                    und = und or f"{name}{label or args!r}: {ex}"
                     continue
                 except (Raised, TypeError, ValueError, AttributeError, ArithmeticError, IndexError, KeyError) as ex:
                     raised = type(ex).__name__ if not isinstance(ex, Raised) else str(ex.what)
@@ -389,7 +396,7 @@ def r11_4(ctx):
                 changed = [i for i, (a, b) in enumerate(zip(before, after)) if a != b]
                 if changed and worst is None:
                     i = changed[0]
-                    worst = (f"{name}{args!r} raises {raised} after {len(changed)} of {len(pts)} control points were "
+                    worst = (f"{name}({label or args!r}) raises {raised} after {len(changed)} of {len(pts)} control points were "
                              f"written (point {i}: {tuple(map(str, before[i]))} -> {tuple(map(str, after[i]))})")
             if worst:
                 out.bad(fn.qname, "a rejected argument leaves the figure partially transformed", where=fn.where(), detail=worst)
